@@ -180,9 +180,11 @@ def check(rep, tier):
         flat = np.ravel(Tc[-1] if rec["dim"] != "homogeneous" else Tc[-3:])
         for Tv in flat[flat < Teql][:3]:
             Jv = kb * (Teql - Tv) ** c["b"]
-            if 1e-280 < Jv < 1e200:
+            # relative tolerance 1e-9, widened where T_eq_l - T is a difference of two nearly equal kelvin temperatures (17-digit decimal literals)
+            tolJ = max(1e-9, 40 * abs(c["b"]) * 2.2e-16 * Teql / max(Teql - Tv, 1e-300))
+            if 1e-280 < Jv < 1e200 and tolJ <= 1e-4:
                 certs.append("Goal Rabs (Jrate %s %s %s %s - %s) <= %s.\nProof. unfold Jrate, NumR.Rltb. destruct (Rlt_dec _ _) as [_|H]; [|exfalso; apply H; lra]. unfold Rpower. interval with (i_prec 90). Qed.\n"
-                             % (rlit(kb), rlit(c["b"]), rlit(Teql), rlit(Tv), rlit(Jv), rlit(Jv * 1e-9)))
+                             % (rlit(kb), rlit(c["b"]), rlit(Teql), rlit(Tv), rlit(Jv), rlit(Jv * tolJ)))
     rc, out = common.coq_eval("c08_0", HEAD % coq_list(cases), timeout=900)
     blocks = common.eval_blocks(out)
     if rc != 0 or len(blocks) != 1:
